@@ -247,8 +247,18 @@ func c12Gen(r *rand.Rand, tier string) []Case {
 			}
 		}
 		c = append(c, fmt.Sprintf("dump %d", c12N))
+		// one transfer in four names the owner or the new owner by the other spelling of its bech32 string (upper case
+		// decodes to the same address)
+		for j := range c {
+			if strings.HasPrefix(c[j], "xfer") && r.Intn(4) == 0 {
+				c[j] += " # spell=" + pick(r, []string{"owner", "new"})
+			}
+		}
 		out = append(out, c)
 	}
+	// fixed case: one account transferring to itself, named by two spellings of its address, all three messages
+	out = append(out, Case{"reset 4", "mint 0 0 1000", "mint 0 1 500", "fund 0 0:1000,1:500", "xferamt 0 0 0:400 # spell=new", "dump 5",
+		"xferratio 0 0 500000000000000000 # spell=owner", "dump 5", "xferall 0 0 # spell=new", "dump 5", "xferamt 0 1 0:100 # spell=owner", "dump 5"})
 	return out
 }
 
@@ -482,22 +492,35 @@ func c12Exec(c Case) (outs []string, fails []Failure, tags []string) {
 			cctx, write := ctx.CacheContext()
 			var err error
 			moved := map[int]*big.Int{}
+			// the two spellings of a bech32 address
+			ownerS, newS := testAddr(a).String(), testAddr(b).String()
+			switch vmKV(f)["spell"] {
+			case "owner":
+				ownerS = strings.ToUpper(ownerS)
+				tags = append(tags, "address-in-upper-case")
+			case "new":
+				newS = strings.ToUpper(newS)
+				tags = append(tags, "address-in-upper-case")
+			}
+			if i := indexOf(f, "#"); i >= 0 {
+				f = f[:i]
+			}
 			switch f[0] {
 			case "xferall":
-				_, err = ms.TransferOwnership(sdk.WrapSDKContext(cctx), &ucdaotypes.MsgTransferOwnership{Owner: testAddr(a).String(), NewOwner: testAddr(b).String()})
+				_, err = ms.TransferOwnership(sdk.WrapSDKContext(cctx), &ucdaotypes.MsgTransferOwnership{Owner: ownerS, NewOwner: newS})
 				for d := 0; d < 4; d++ {
 					moved[d] = pre[[2]int{a, d}]
 				}
 			case "xferamt":
 				cs := parseCoins(f[3])
-				_, err = ms.TransferOwnershipWithAmount(sdk.WrapSDKContext(cctx), &ucdaotypes.MsgTransferOwnershipWithAmount{Owner: testAddr(a).String(), NewOwner: testAddr(b).String(), Amount: c12SdkCoins(cs)})
+				_, err = ms.TransferOwnershipWithAmount(sdk.WrapSDKContext(cctx), &ucdaotypes.MsgTransferOwnershipWithAmount{Owner: ownerS, NewOwner: newS, Amount: c12SdkCoins(cs)})
 				for _, x := range cs {
 					moved[x.D] = x.V
 				}
 			case "xferratio":
 				ratio := sdkmath.LegacyNewDecFromBigIntWithPrec(mustBig(f[3]), 18)
 				var resp *ucdaotypes.MsgTransferOwnershipWithRatioResponse
-				resp, err = ms.TransferOwnershipWithRatio(sdk.WrapSDKContext(cctx), &ucdaotypes.MsgTransferOwnershipWithRatio{Owner: testAddr(a).String(), NewOwner: testAddr(b).String(), Ratio: ratio})
+				resp, err = ms.TransferOwnershipWithRatio(sdk.WrapSDKContext(cctx), &ucdaotypes.MsgTransferOwnershipWithRatio{Owner: ownerS, NewOwner: newS, Ratio: ratio})
 				if err == nil {
 					// stated amount = floor(balance × ratio), independently computed
 					one := new(big.Int).Exp(big.NewInt(10), big.NewInt(18), nil)
@@ -565,4 +588,13 @@ func c12Exec(c Case) (outs []string, fails []Failure, tags []string) {
 		}
 	}
 	return
+}
+
+func indexOf(xs []string, x string) int {
+	for i, y := range xs {
+		if y == x {
+			return i
+		}
+	}
+	return -1
 }
